@@ -92,7 +92,22 @@ def r_tree_fill(ck: Checker) -> None:
     if ok:
         rv = eval_str(x0.value.values[0], {}, {})
         ok = [(s.text if isinstance(s, Lit) else "{" + s.src + "}") for s in rv] in (["/@root[0]", "{" + rootp + ".__class__.__name__}"],)
-    (ck.holds if ok else ck.violation)("R-TREE-FILL", f, fn, what, **({} if ok else {"construct": "Tree.__init__: table initialisers not recognised / wrong"}))
+    if ok:
+        ck.holds("R-TREE-FILL", f, fn, what)
+    else:
+        # positively wrong initialisers; anything else is not decided
+        wrong = None
+        if x0 is not None and isinstance(x0.value, ast.Dict) and not x0.value.keys:
+            wrong = "the membership table starts empty: the root is not in the tree"
+        elif p0 is not None and isinstance(p0.value, ast.Dict) and p0.value.keys:
+            wrong = f"the parent table starts with an entry for {norm(p0.value.keys[0])}: the root has no parent"
+        elif x0 is not None and isinstance(x0.value, ast.Dict) and len(x0.value.keys) == 1 and norm(x0.value.keys[0]) == rootp:
+            rv = [(s_.text if isinstance(s_, Lit) else "{" + s_.src + "}") for s_ in eval_str(x0.value.values[0], {}, {})]
+            if rv and isinstance(rv[0], str) and rv[0].startswith("/") and rv[0] != "/@root[0]" and not rv[0].startswith("{"):
+                wrong = f"the root is spelled {rv[0]!r}… instead of '/@root[0]<Class>'"
+        if wrong is None:
+            raise Unsupported("Tree.__init__: table initialisers not recognised", fn)
+        ck.violation("R-TREE-FILL", f, fn, what, construct=f"Tree.__init__: {wrong}")
     g = ck.repo.func(TREE, "Tree.is_in_tree")
     rets = [s for s in walk_body(g.node.body) if isinstance(s, ast.Return)]
     what = "is_in_tree tests membership in the table that contains the root and every descendant"
